@@ -473,7 +473,7 @@ static void c12_domains(Context& cx)
         rc::detail::checkTestable(
             [&]() {
                 T xs[64], ys[64], out[64];
-                auto bx = *rc::gen::container<std::vector<uint64_t>>((size_t)(2 * n), rc::gen::arbitrary<uint64_t>());
+                auto bx = *rc::gen::container<std::vector<uint64_t>>((size_t)(2 * n), rc::gen::resize(100, rc::gen::arbitrary<uint64_t>()));
                 for (int l = 0; l < n; ++l)
                 {
                     uint64_t a = mix64(bx[l]), b = mix64(bx[n + l]);
